@@ -146,10 +146,71 @@ def r12(repo, rep):
                 full = isinstance(v, ast.Call) and attr_chain(v.func) == "sum" and \
                     "self.weight" in short(v, 400) and "self.items" in short(v, 400)
                 zero = isinstance(v, ast.Constant) and v.value == 0 and f.name == "__init__"
+                if isinstance(v, ast.Constant) and v.value == 0 and f.name == "remove":
+                    # only the emptiness reset (I6) may zero the total
+                    cx = [c for c in walk_function(f.node) if c.stmt is n]
+                    for fx, pol in (cx[0].facts if cx else ()):
+                        t = short(fx).replace(" ", "")
+                        if (pol and t in ("len(self.items)==0", "len(self)==0")) or \
+                                ((not pol) and t in ("self.items", "len(self.items)", "len(self)", "len(self.items)>0", "len(self)>0")):
+                            zero = True
                 rep.ob("R12.I1", full or zero, "%s: total assignment" % f.name,
                        detail="" if (full or zero) else "_total_weight assigned something that is neither 0 at construction nor the sum over all items",
                        func=f, node=n)
+    # remove() must forget the weight of what it removes (a later re-insertion starts from 0)
+    rem0 = m["remove"]
+    forgets = any(_delta_of_store(st) is not None and isinstance(st, (ast.Assign, ast.Expr, ast.Delete)) and
+                  ("pop" in short(st) or isinstance(st, ast.Delete)) for blk in _blocks(rem0.node) for st in blk)
+    rep.ob("R12.I1", forgets, "remove: the removed item's weight is deleted from the weight table", func=rem0, node=rem0.node,
+           construct="remove: weight.pop(choice)", detail="" if forgets else "remove() reads the weight but leaves it in self.weight: "
+           "a re-inserted item accumulates its old weight while _total_weight only grows by the new one")
     rep.floor("R12", "weight stores", nstores, 3)
+    # no method that rewrites _total_weight may run between a weight change and its paired total update
+    writers = set()
+    changed = True
+    while changed:
+        changed = False
+        for f in all_methods:
+            if f.name in writers or f.name == "__init__":
+                continue
+            w = any(isinstance(n, (ast.Assign, ast.AugAssign)) and any(_is_self_attr(t, "_total_weight") for t in
+                    (n.targets if isinstance(n, ast.Assign) else [n.target])) for n in own_nodes(f.node)) or \
+                any(isinstance(n, ast.Call) and (attr_chain(n.func) or "").startswith("self.") and
+                    (attr_chain(n.func) or "").split(".")[1] in writers for n in own_nodes(f.node))
+            if w:
+                writers.add(f.name); changed = True
+    for f in all_methods:
+        for blk in _blocks(f.node):
+            idx_store = [i for i, st in enumerate(blk) if _delta_of_store(st) is not None and _delta_of_store(st)[1] is not None]
+            idx_tot = [i for i, st in enumerate(blk) if _total_delta(st) is not None]
+            for i in idx_store:
+                js = [j for j in idx_tot if _total_delta(blk[j])[0] == _delta_of_store(blk[i])[1][0]
+                      and same(_total_delta(blk[j])[1], _delta_of_store(blk[i])[1][1])]
+                if not js:
+                    continue
+                lo, hi = min(i, js[0]), max(i, js[0])
+                between = blk[lo + 1:hi]
+                calls = [n for st in between for n in ast.walk(st) if isinstance(n, ast.Call)
+                         and (attr_chain(n.func) or "").startswith("self.") and (attr_chain(n.func) or "").split(".")[1] in writers]
+                rep.ob("R12.I1", not calls, "%s: weight change and total update are not separated by a method that rewrites the total" % f.name,
+                       func=f, node=calls[0] if calls else blk[i], construct="%s: calls between pair %s" % (f.name, [short(c, 40) for c in calls]),
+                       detail="" if not calls else "%s runs between `%s` and `%s`: it recomputes _total_weight from the already changed "
+                       "weights, so the paired update is applied twice" % (short(calls[0], 40), short(blk[i], 50), short(blk[js[0]], 50)))
+    # I6: an emptied list has total weight exactly 0 (loops of the form `while X.total_weight() > 0` must terminate;
+    # float residue of repeated += / -= must not keep an empty candidate set "active")
+    reset = False
+    for c in walk_function(rem0.node):
+        st = c.stmt
+        if isinstance(st, ast.Assign) and any(_is_self_attr(t, "_total_weight") for t in st.targets) \
+                and isinstance(st.value, ast.Constant) and st.value.value == 0:
+            for fx, pol in c.facts:
+                t = short(fx).replace(" ", "")
+                if (pol and t in ("len(self.items)==0", "len(self)==0")) or ((not pol) and t in ("self.items", "len(self.items)", "len(self)", "len(self.items)>0", "len(self)>0")):
+                    reset = True
+    rep.ob("R12.I6", reset, "remove: when the last item leaves, the total is reset to exactly 0", func=rem0, node=rem0.node,
+           construct="remove: _total_weight = 0 when empty",
+           detail="" if reset else "nothing resets _total_weight when the list becomes empty: the rounding residue of repeated +=/-= keeps "
+           "`total_weight() > 0` true on an empty candidate set (Gillespie_complex_contagion then calls random.choice on an empty list)")
 
     # ---------------- I2: max_weight is an upper bound -----------------------
     upd = m["update"]
